@@ -416,6 +416,11 @@ def gen_history(rng, cfg, kind):
             pools[1] = list(dict.fromkeys(pools[1] + list(names[0])))
             shared_done = True
             bump("ops", "share")
+            # un-share by adding one new small attribute to either inode, then look at the disk
+            emit_set(rng.choice([0, 1]), b"user.unshare", rng.randrange(0, 9))
+            for f in range(nfiles):
+                opened[f] = None
+            lines.append("#reopen")
             continue
         if opno in reopen_at:
             for f in range(nfiles):
@@ -553,6 +558,10 @@ class Judge:
                 self.bump("refusals_near_limit")
         elif len(stored) > 65536:
             self.bump("refused_over_64K")
+        elif split_name(name)[0] == 0:
+            # a name without a known prefix has no valid on-disk representation (index 0);
+            # refusing it is fine, storing it must round-trip and stay consistent
+            self.bump("refused_unknown_prefix")
         else:
             self.v("set-error " + status, "%s -> %s" % (line[:120], status))
 
@@ -1156,6 +1165,10 @@ def segments_of(lines):
     return segs
 
 
+# a violation after which model and image still agree (the model adopts what was stored)
+NONFATAL = ("debugfs ea_set-truncated",)
+
+
 def execute(ctx, cfg, kind, variant, lines, workdir, final=True):
     """Make a fresh filesystem and run the history.  Returns a result dict."""
     out = {"viol": [], "moves": [], "placements": {}, "counts": {}, "shared": 0}
@@ -1236,6 +1249,11 @@ def execute(ctx, cfg, kind, variant, lines, workdir, final=True):
         if border is None and not final:
             break
         res = look()
+        if any(k not in NONFATAL for k, _ in j.viol):
+            # model and image have diverged: whatever follows would be a consequence
+            out["stopped_early"] = 1
+            final = False
+            break
         if border and border.startswith("#share"):
             w = border.split()
             a, b = j.files.get(w[1]), j.files.get(w[2])
@@ -1254,6 +1272,10 @@ def execute(ctx, cfg, kind, variant, lines, workdir, final=True):
                             j.unknown.setdefault(b, set()).add(n)
                     out["shared"] = 1
                     look()
+                    if any(k not in NONFATAL for k, _ in j.viol):
+                        out["stopped_early"] = 1
+                        final = False
+                        break
     out["moves"] = sorted(moves)
     out["counts"] = j.counts
     out["nattrs_final"] = sum(len(m) for m in j.model.values())
@@ -1397,6 +1419,7 @@ def main(tier, seed, replay=None, scale=1.0):
         for mv in r.get("moves", []):
             rep.count("move_" + mv)
         rep.count("histories_with_shared_block", r.get("shared", 0))
+        rep.count("histories_stopped_at_first_violation", r.get("stopped_early", 0))
         rep.count("inline_data_files", r["info"]["inline_files"])
         if r.get("sample"):
             rep.sample({"config": r["info"], "first_lines": r["sample"], "moves": r.get("moves")})
